@@ -311,6 +311,7 @@ func init() {
 	caddy.RegisterModule(&Span{})
 	caddy.RegisterModule(&Closer{})
 	caddy.RegisterModule(&SetRepl{})
+	caddy.RegisterModule(&Gate{})
 	caddy.RegisterModule(&M1{})
 	caddy.RegisterModule(&M2{})
 	caddy.RegisterModule(&M3{})
@@ -328,6 +329,8 @@ type Sink struct {
 	Reply string `json:"reply,omitempty"`
 	// DelayUs sleeps between reads (slow consumer).
 	DelayUs int `json:"delay_us,omitempty"`
+	// Gate: hold the first Read at the named start line until the harness opens it
+	Gate string `json:"gate,omitempty"`
 }
 
 func (*Sink) CaddyModule() caddy.ModuleInfo {
@@ -349,6 +352,17 @@ func (s *Sink) Handle(cx *layer4.Connection, _ layer4.Handler) error {
 	total := 0
 	var err error
 	replied := false
+	if s.Gate != "" {
+		// start line right in front of the first Read (see Gate)
+		st := gateOf(s.Gate)
+		st.arrived.Add(1)
+		deadline := time.Now().Add(3 * time.Second)
+		for i := 0; !st.open.Load(); i++ {
+			if i%4096 == 4095 && time.Now().After(deadline) {
+				break
+			}
+		}
+	}
 	for {
 		want := len(buf)
 		if s.Max > 0 && s.Max-total < want {
@@ -766,4 +780,51 @@ func (s *SetRepl) Handle(cx *layer4.Connection, next layer4.Handler) error {
 	repl := cx.Context.Value(layer4.ReplacerCtxKey).(*caddy.Replacer)
 	repl.Set(s.Key, s.Values[int(buf[s.N-1]-'0')%len(s.Values)])
 	return next.Handle(cx)
+}
+
+// Gate holds every connection that reaches it, spinning, until the harness opens the gate: the goroutines of all
+// held connections then go on within nanoseconds of each other (a start line for simultaneous first reads).
+type Gate struct {
+	Name string `json:"name,omitempty"`
+}
+
+type gateState struct {
+	arrived atomic.Int32
+	open    atomic.Bool
+}
+
+var gates sync.Map // name -> *gateState
+
+func gateOf(name string) *gateState {
+	g, _ := gates.LoadOrStore(name, &gateState{})
+	return g.(*gateState)
+}
+
+func (*Gate) CaddyModule() caddy.ModuleInfo {
+	return caddy.ModuleInfo{ID: "layer4.handlers.verif_gate", New: func() caddy.Module { return new(Gate) }}
+}
+
+func (g *Gate) Handle(cx *layer4.Connection, next layer4.Handler) error {
+	st := gateOf(g.Name)
+	st.arrived.Add(1)
+	deadline := time.Now().Add(3 * time.Second)
+	for i := 0; !st.open.Load(); i++ {
+		if i%4096 == 4095 && time.Now().After(deadline) {
+			break
+		}
+	}
+	return next.Handle(cx)
+}
+
+// OpenGate waits (up to a second) until n connections are held at the gate, opens it and forgets it.
+// It reports how many were held.
+func OpenGate(name string, n int) int {
+	st := gateOf(name)
+	for dl := time.Now().Add(time.Second); int(st.arrived.Load()) < n && time.Now().Before(dl); {
+		time.Sleep(20 * time.Microsecond)
+	}
+	got := int(st.arrived.Load())
+	st.open.Store(true)
+	gates.Delete(name)
+	return got
 }
